@@ -119,4 +119,28 @@ PROPS = {
                         "assumed for the library lemma: HashMap behaves as a finite map, the nested enumerate builds only well-formed patterns (by inspection), best is written only at the "
                         "anchored insertion site; OnceLock::get_or_init returns the closure's value; perm_tt/flip_inputs are external_body in the Verus job (their meaning is proved by the Kani job)"],
     },
+    "C29": {
+        "units": ["store"],
+        "level": "proof",
+        "clause": "crates/cache/src/lib.rs over a ghost disk: every public Store operation against the abstract view (saved manifest, next entries, on_disk_current): keep copies exactly the saved entry "
+                  "of src, invalidate clears only that entry's fragment, set_dependents/set_tests/set_diagnostics change only their field of only that entry, put records exactly the new entry and "
+                  "blob (frame over all other keys); save: an identical re-scan touches nothing (no serializer or write call), otherwise saved == old next, the disk manifest parses to it, the flag "
+                  "is true only after a successful write; gc removes only blobs the saved manifest does not reference; open: entries iff schema and key match, else empty; blob header codec: "
+                  "decode(d) == Some(p) <=> d == MAGIC ++ le32(SCHEMA) ++ p for every length (Verus); lemma_reopen_same_key / lemma_reopen_other_key and a client scenario "
+                  "open-put-save-reopen-load. Kani cross-checks of the header codec on the real std slice functions are bounded in the payload length (labelled).",
+        "assumptions": ["assumed: toml_parse(toml::to_string(m)) == Some(m); BLAKE3 collision-free / blob_rel injective; fs wrappers (read may fail, delivered data is the file's data; atomic write: Ok => exact bytes, Err => unchanged)",
+                        "gc's reference-set iterator chain is outlined (assumed contract); the native differential run exercises the real chain",
+                        "not covered: the lock file, crash points, concurrent processes (C05/C30)"],
+    },
+    "C35": {
+        "units": ["hostcopy"],
+        "level": "proof",
+        "clause": "Clause 'values cross the host/component boundary with every bit and every X/Z mask bit intact at every width': HostContext::{set_input, set_input_masked, svc_write_output, "
+                  "svc_port_words_len, add_port_role} copy every payload word and every mask word of exactly the addressed port (stale mask cleared when none is given, dirty set, all other "
+                  "ports and fields untouched, out-of-range or non-output index ignored), words_for(w) == max(1, ceil(w/64)), mask_top_word clears exactly the bits >= width - for every "
+                  "width and word count (Verus, unbounded); component Value::{as_i64, unknown_at, from_u64, from_bits, to_port_words, to_port_mask_xz} against bit-level contracts (Kani; resizing "
+                  "constructors at fixed widths, labelled bounded).",
+        "assumptions": ["not covered: hook timing relative to flip-flop commit, the WebAssembly transport (no wasm32 target), HostValue::as_vrl and the raw-pointer FFI side, call_method",
+                        "observation (not a contract): parameters/method arguments are two-state by design; Value::as_i64 ignores mask_xz"],
+    },
 }
